@@ -313,7 +313,10 @@ def run(ctx):
     quic = ["q2a_dissect", "q2b_session"]
     ctx.gen_tables.update(m1_mainloop.regen())
     quic = quic + ["quic_pipeline_corr"]
-    ctx.prove(["TLX.Props.C03", "TLX.Props.C04", "TLX.Props.C01Pipeline"] + c02_model.modules(quic))
+    import translate                 # decision-logic functions re-translated from the source and proved equal to the model
+    _tm, _tt = translate.wire(ctx, "C03")
+    ctx.prove(["TLX.Props.C03", "TLX.Props.C04", "TLX.Props.C01Pipeline"] + c02_model.modules(quic) + _tm)
+    ctx.require_theorems(_tt)
     ctx.require_theorems(session_corr.THEOREMS_C03 + [t for t in c02_model.theorems(quic) if t.rsplit(".", 1)[1] in (
         "dissect_total", "dissect_loop_total", "dissect_progress", "session_total", "session_total_run",
         "wrong_keys_export_nothing", "wrong_keys_export_nothing_fresh", "session_total_counterexample")] + [
